@@ -17,12 +17,17 @@ CONSTANTS
                \* transitions between such states (histories of any length)
   Rich         \* TRUE: larger value / bad-value / override alphabets
 
-(* Class variants of that tree: dm = which classes are declared with a derived      *)
-(* metaclass, fl = which classes define `__len__` returning 0 (falsy instances).    *)
-(* The model's transitions do not depend on the variant - the replay runs every     *)
-(* walk on real classes built per variant (rotating; the walks of the global        *)
-(* setting under EVERY variant).                                                    *)
-ClassVariants ==
+(* forced_support is a BaseImage property: its behaviours run on FsTree, which has   *)
+(* the REAL ancestors above the style class: 1 BaseImage, 2 GraphicsImage(1),         *)
+(* 3 the style class (2), 4 the other graphics style class (2), user classes 5(3),    *)
+(* 6(5), 7(5); instances 8 of class 6, 9 of class 7.                                  *)
+(*                                                                                   *)
+(* Class variants of a tree: dm = which classes are declared with a derived           *)
+(* metaclass, fl = which classes define `__len__` returning 0 (falsy instances).      *)
+(* The model's transitions do not depend on the variant - the replay runs every       *)
+(* walk on real classes built per variant (rotating; the walks of the global          *)
+(* setting under EVERY variant).                                                      *)
+StdVariants ==
   << [dm |-> <<0, 0, 1, 0, 0, 0, 0>>,    \* 3 (and so 5, instance 6) vs plain 1, 2, 4, 7
       fl |-> <<0, 0, 0, 0, 1, 0, 0>>],   \* instance 6 falsy, instance 7 truthy
      [dm |-> <<0, 1, 0, 0, 0, 0, 0>>,    \* everything below the real class
@@ -31,15 +36,27 @@ ClassVariants ==
       fl |-> <<0, 0, 0, 1, 0, 0, 0>>],   \* instance 7 falsy, instance 6 truthy
      [dm |-> <<0, 0, 0, 0, 0, 0, 0>>,
       fl |-> <<0, 0, 0, 0, 0, 0, 0>>] >> \* plain
-Tree == [par |-> <<0, 1, 2, 2, 3, 5, 4>>, nc |-> 5, dm |-> ClassVariants[1].dm, fl |-> ClassVariants[1].fl]
-N == Len(Tree.par)
-ASSUME WellFormedTree(Tree)
-ASSUME \A i \in 1..Len(ClassVariants) :
-         WellFormedTree([Tree EXCEPT !.dm = ClassVariants[i].dm, !.fl = ClassVariants[i].fl])
+FsVariants ==
+  << [dm |-> <<0, 0, 0, 0, 0, 1, 0, 0, 0>>, fl |-> <<0, 0, 0, 0, 0, 0, 1, 0, 0>>],
+     [dm |-> <<0, 0, 0, 0, 1, 0, 0, 0, 0>>, fl |-> <<0, 0, 0, 0, 1, 0, 0, 0, 0>>],
+     [dm |-> <<0, 0, 0, 0, 0, 0, 0, 0, 0>>, fl |-> <<0, 0, 0, 0, 0, 0, 0, 0, 0>>] >>
+StdTree == [par |-> <<0, 1, 2, 2, 3, 5, 4>>, nc |-> 5, dm |-> StdVariants[1].dm, fl |-> StdVariants[1].fl,
+            real |-> <<"style", "", "", "", "", "", "">>]
+FsTree == [par |-> <<0, 1, 2, 2, 3, 5, 5, 6, 7>>, nc |-> 7, dm |-> FsVariants[1].dm, fl |-> FsVariants[1].fl,
+           real |-> <<"BaseImage", "GraphicsImage", "style", "other", "", "", "", "", "">>]
+ASSUME \A i \in 1..Len(StdVariants) :
+         WellFormedTree([StdTree EXCEPT !.dm = StdVariants[i].dm, !.fl = StdVariants[i].fl])
+ASSUME \A i \in 1..Len(FsVariants) :
+         WellFormedTree([FsTree EXCEPT !.dm = FsVariants[i].dm, !.fl = FsVariants[i].fl])
 
 VARIABLES fam, cur, S, out
 vars == <<fam, cur, S, out>>
 View == <<fam, cur, S>>
+
+\* the tree of the current behaviour (cur never changes)
+Tree == IF cur = "fs" THEN FsTree ELSE StdTree
+N == Len(Tree.par)
+ClassVariants == IF cur = "fs" THEN FsVariants ELSE StdVariants
 
 RmVals(f) == {StrV(m) : m \in (IF Rich THEN Methods(f) ELSE {"lines", "whole"})}
 
@@ -179,7 +196,8 @@ Key(s) == [fam |-> fam, cur |-> cur, ov |-> [n \in 1..N |-> Show(s[cur][n])]]
 \* what the real code must show after the operation, at every node
 Exp(s) == [eff |-> [n \in 1..N |-> Show(ObsEff(Tree, fam, s, cur, n))],
            m |-> [n \in 1..N |-> Eff(Tree, s, "rm", n).s],   \* effective method: dictates the data size
-           gate |-> [n \in 1..N |-> Gate(Tree, s, n)]]
+           gate |-> [n \in 1..N |-> Gate(Tree, s, n)],
+           clr |-> [n \in 1..N |-> ClearObs(Tree, fam, s, n)]]
 
 OpOut(o, s2) == [k |-> o.op.k, set |-> o.op.set, n |-> o.op.n, a |-> Show(o.op.a),
                  res |-> o.res, used |-> o.used, um |-> o.um, exp |-> Exp(s2)]
@@ -204,8 +222,8 @@ GeoTable == [i \in 1..Len(GeoSeq) |->
 InitDump ==
   TLCGet("level") = 1 =>
     /\ PrintT(<<"INIT", ToJson(Key(S))>>)
-    /\ PrintT(<<"DEFAULTS", ToJson([fam |-> fam, par |-> Tree.par, nc |-> Tree.nc,
+    /\ PrintT(<<"DEFAULTS", ToJson([fam |-> fam, cur |-> cur, par |-> Tree.par, nc |-> Tree.nc, real |-> Tree.real,
                  eff |-> [i \in 1..Len(SettingSeq) |->
                             [set |-> SettingSeq[i], v |-> Show(ObsDefault(fam, SettingSeq[i]))]],
-                 gate |-> "shut", geos |-> GeoTable, variants |-> ClassVariants])>>)
+                 gate |-> "shut", clr |-> "silent", geos |-> GeoTable, variants |-> ClassVariants])>>)
 =============================================================================
